@@ -1,7 +1,9 @@
 // drive_bank <script.ndjson> <trace.ndjson>
 // Replays bank-API operation sequences on real instances; after every operation records the
 // result, the iteration order (getFirstBank/getNextBank/getBankId), the capacity, the number of
-// heap allocations the call made, lookups of the probe keys and instrument read-backs.
+// heap allocations the call made, lookups of the probe keys and instrument read-backs (indices 0, 1, 127 of every
+// probe bank that is found, or the indices named by "rbi" of the init command).
+// Instrument indices are passed as unsigned: negative numbers in the script stand for 2^32 - n (-1 = UINT_MAX).
 #include "vh.hpp"
 #include "wopn/wopn_file.h"
 #include <new>
@@ -37,6 +39,7 @@ int main(int argc, char **argv)
     installCrashHandlers();
     OPN2_MIDIPlayer *dev = NULL;
     std::vector<long long> probe;
+    std::vector<unsigned> rbi;
     for(size_t li = 0; li < lines.size(); ++li)
     {
         JV c; if(!jparse(lines[li], c)) return 2;
@@ -49,6 +52,9 @@ int main(int argc, char **argv)
             dev = opn2_init(44100);
             probe.clear();
             for(size_t k = 0; k < c["probe"].a.size(); ++k) probe.push_back(c["probe"].a[k].num());
+            rbi.clear();
+            for(size_t k = 0; k < c["rbi"].a.size(); ++k) rbi.push_back((unsigned)c["rbi"].a[k].num());
+            if(rbi.empty()) { rbi.push_back(0); rbi.push_back(1); rbi.push_back(127); }
             fprintf(g_trace, "%s\n", lines[li].c_str());
             continue;
         }
@@ -73,6 +79,12 @@ int main(int argc, char **argv)
             OPN2_BankId id; keyToId(c.get("key"), id); OPN2_Bank b;
             r = opn2_getBank(dev, &id, 0, &b);
             if(r == 0) { OPN2_Instrument ins; insOfTok(ins, (int)c.get("tok")); r = opn2_setInstrument(dev, &b, (unsigned)c.get("idx"), &ins); }
+        }
+        else if(o == "getins")
+        {
+            OPN2_BankId id; keyToId(c.get("key"), id); OPN2_Bank b;
+            r = opn2_getBank(dev, &id, 0, &b);
+            if(r == 0) { OPN2_Instrument ins; memset(&ins, 0xEE, sizeof ins); r = opn2_getInstrument(dev, &b, (unsigned)c.get("idx"), &ins); }
         }
         else if(o == "load")
         {
@@ -137,8 +149,8 @@ int main(int argc, char **argv)
         w.key("rb"); w.begin_arr();
         for(size_t k = 0; k < found.size(); ++k)
         {
-            const unsigned idxs[3] = {0, 1, 127};
-            for(int q = 0; q < 3; ++q)
+            const std::vector<unsigned> &idxs = rbi;
+            for(size_t q = 0; q < idxs.size(); ++q)
             {
                 OPN2_Instrument ins; memset(&ins, 0xEE, sizeof ins);
                 if(opn2_getInstrument(dev, &found[k].second, idxs[q], &ins) != 0) continue;
